@@ -19,7 +19,9 @@ RULE = ("case = (functional, method, backward-solve method, representation kind,
         "relative; distinct = distinct rounded (outputs, gradients) observations; a case is trivial when the "
         "reference itself raises or is non-finite (then nothing is judged)")
 RULE_ADDED = ('Added later: kinds with dependent / repeated / reversed-declaration parameters (pure_dep, em_dep, pu'
-              're_twice, em_twice, multi3, em_dict_rev), list-state solve_ivp.')
+              're_twice, em_twice, multi3, em_dict_rev), list-state solve_ivp. Round 4: kinds em_pexp (object tenso'
+              'r of f next to explicit parameters of log p) and em_cplx (object also holds complex / integer tensor'
+              's).')
 ASSUMPTIONS = [
     "leaves a, b, p are float64 vectors of length 2 from a fixed alphabet (plane 0) or from boxes a in [0.6,1], "
     "b in [-0.4,0.4], p in [0.3,0.7] selected by VERIF_SEED (thorough planes 1..2); the functions are contractions / "
